@@ -404,9 +404,9 @@ class ArrV:
                 scalar.append(False)
                 continue
             if isinstance(i, SliceV):
-                lo = 0 if i.lo is None else _const_int(i.lo)
-                hi = size if i.hi is None else _const_int(i.hi)
-                st = 1 if i.step is None else _const_int(i.step)
+                lo = None if i.lo is None else _const_int(i.lo)
+                hi = None if i.hi is None else _const_int(i.hi)
+                st = None if i.step is None else _const_int(i.step)
                 sets.append(list(range(size))[lo:hi:st])
                 scalar.append(False)
             else:
